@@ -142,6 +142,10 @@ def make_cases(ck, n, styles, seed_rng, mutate=None):
         prog = slicegen.Gen(rng, depth=3).program()
         decorate(rng, prog)
         what = mutate(rng, prog) if mutate else None
+        if rng.random() < 0.12:
+            # a file without a module declaration: only file attributes, or nothing at all
+            g = slicegen.Gen(rng, depth=1)
+            prog["files"].insert(rng.randrange(len(prog["files"]) + 1), {"path": "extra", "module": None, "fattrs": g.attrs(1.0) + g.attrs(0.5), "mattrs": [], "defs": []})
         for style in styles:
             c = Case()
             c.prog, c.style, c.files, c.what = prog, style, [], what
